@@ -37,7 +37,8 @@ func runC07(c *Ctx) {
 	}
 	c07R1R2(c, p)
 	c07Insert(c, p)
-	c07R3R4(c, p)
+	c07Rows(c, p)
+	c07R3R4(c, p, false)
 	// a line is only legal from the root if the search leaves the board as it found it
 	rulePairs(c, p, "C07.R5")
 	c07Premises(c, p)
@@ -341,7 +342,7 @@ func c07Insert(c *Ctx, p *Prog) {
 	}
 }
 
-func c07R3R4(c *Ctx, p *Prog) {
+func c07R3R4(c *Ctx, p *Prog, strictPonder bool) {
 	const r3, r4 = "C07.R3", "C07.R4"
 	fn := p.Func("search.(*Search).iterativeDeepen")
 	if fn == nil {
@@ -402,7 +403,7 @@ func c07R3R4(c *Ctx, p *Prog) {
 	}
 	_ = mv
 	_ = pd
-	c07Adoption(c, p, fn, reports, isDepthIncr)
+	c07Adoption(c, p, fn, reports, isDepthIncr, strictPonder)
 
 	// R4
 	for i, rp := range reports {
@@ -502,6 +503,9 @@ func windowOK(ph *ssa.Phi, sample ssa.Value, seen map[ssa.Value]bool) bool {
 
 func init() {
 	addMutants(
+		Mutant{Name: "C07.R2-row-index-integer-division-moved", Prop: "C07", File: "search/pv.go",
+			Old: "\treturn int(ply)*MaxPlies - int(ply)*int(ply-1)/2\n", New: "\treturn int(ply) * (MaxPlies - int(ply-1)/2)\n",
+			Expect: "C07.R2/bufIx#rows-disjoint"},
 		Mutant{Name: "C07.R1-clear-after-quiescence-handoff", Prop: "C07", File: "search/search.go", Quick: true,
 			Old: "\ts.pv.setNull(ply)\n\n\tif d == 0 || ply >= MaxPlies-1 {\n\t\treturn s.quiescence(b, alpha, beta, ply, opts)\n\t}\n", New: "\tif d == 0 || ply >= MaxPlies-1 {\n\t\treturn s.quiescence(b, alpha, beta, ply, opts)\n\t}\n\n\ts.pv.setNull(ply)\n",
 			Expect: "C07.R1/alphaBeta#entry-clear"},
@@ -567,7 +571,7 @@ func scoreParam(fn *ssa.Function, i int) string {
 
 // c07Adoption decides, per path from a root search call to the end of the iteration (or the return),
 // what the result move and ponder hold and what is known about the line and the window.
-func c07Adoption(c *Ctx, p *Prog, fn *ssa.Function, reports []*ssa.Call, isDepthIncr func(ssa.Instruction) bool) {
+func c07Adoption(c *Ctx, p *Prog, fn *ssa.Function, reports []*ssa.Call, isDepthIncr func(ssa.Instruction) bool, strictPonder bool) {
 	const r3 = "C07.R3"
 	_, mvPhis, mvAlloc := resultWeb(fn, 1)
 	_, pdPhis, pdAlloc := resultWeb(fn, 2)
@@ -841,9 +845,41 @@ func c07Adoption(c *Ctx, p *Prog, fn *ssa.Function, reports []*ssa.Call, isDepth
 				}
 			case "unchanged":
 				switch pk {
-				case "unchanged", "zero":
+				case "unchanged":
+				case "zero":
+					// harmless for the legality of what is returned; but the result is then no longer the one of the
+					// last completed iteration, so a search cut short by a hard budget answers differently from the
+					// same search ended by a soft limit after the same number of nodes
+					// (clearing it while the move is known to be the null move changes nothing)
+					moveIsNull := false
+					for _, pc := range bp.Conds {
+						bo, ok := pc.V.(*ssa.BinOp)
+						if !ok || (bo.Op != token.EQL && bo.Op != token.NEQ) {
+							continue
+						}
+						if k, isc := constOf(bo.Y); !isc || k != 0 {
+							continue
+						}
+						x := stripConv(bo.X)
+						isMove := false
+						if l, ok := x.(*ssa.UnOp); ok && l.Op == token.MUL && mvAlloc != nil && l.X == ssa.Value(mvAlloc) {
+							isMove = true
+						}
+						if q, ok := x.(*ssa.Phi); ok && mvPhis[q] {
+							isMove = true
+						}
+						if isMove && pc.True == (bo.Op == token.EQL) {
+							moveIsNull = true
+						}
+					}
+					if strictPonder && !moveIsNull {
+						note("iterativeDeepen#result-of-last-iteration", false, sc.Pos(), "the ponder move is cleared on a path that keeps the move of the last completed iteration: how the search was ended (hard budget/stop vs soft limit) changes the result although score, move and node count are the same")
+					}
 				case "line", "fallback":
 					note("iterativeDeepen#adoption#ponder", false, sc.Pos(), "ponder is replaced on a path that keeps the previous move")
+				}
+				if strictPonder && pk == "unchanged" {
+					note("iterativeDeepen#result-of-last-iteration", true, sc.Pos(), "")
 				}
 				// a non-empty line reported without adopting its first move
 				if reportAt >= 0 && reportCall != nil && bp.End != "return" || (reportAt >= 0 && bp.End == "return") {
@@ -871,6 +907,13 @@ func c07Adoption(c *Ctx, p *Prog, fn *ssa.Function, reports []*ssa.Call, isDepth
 	if !complete {
 		c.Undec(r3, "iterativeDeepen#adoption", fn.Pos(), "path enumeration exceeded its budget")
 		return
+	}
+	if strictPonder {
+		if r := checks["iterativeDeepen#result-of-last-iteration"]; r != nil && r.bad != "" {
+			c.Fail(r3, "iterativeDeepen#result-of-last-iteration", r.pos, "%s", r.bad)
+		} else if r != nil {
+			c.Ok(r3, "iterativeDeepen#result-of-last-iteration", fn.Pos(), "on every path that keeps the move of the last completed iteration its ponder move is kept too (%d paths)", r.count)
+		}
 	}
 	keys := []string{"iterativeDeepen#adoption#first-move", "iterativeDeepen#adoption#ponder", "iterativeDeepen#adoption#inside-window", "iterativeDeepen#adoption#no-search-before-report", "iterativeDeepen#adoption#reported", "iterativeDeepen#fallback-adoption"}
 	for _, k := range keys {
@@ -929,4 +972,149 @@ func negCmp(op token.Token) token.Token {
 		return token.EQL
 	}
 	return op
+}
+
+// evalArith tabulates a branch-free integer function of one parameter: the returned expression is a tree of
+// constants, conversions and + - * / % << >> & | ^ over the parameter. This is constant evaluation of a
+// closed-form index formula over its finite domain (no control flow is executed); anything else is not evaluated.
+func evalArith(fn *ssa.Function, arg int64) (int64, bool) {
+	if fn == nil || len(fn.Blocks) != 1 || len(fn.Params) != 1 {
+		return 0, false
+	}
+	ret, ok := fn.Blocks[0].Instrs[len(fn.Blocks[0].Instrs)-1].(*ssa.Return)
+	if !ok || len(ret.Results) != 1 {
+		return 0, false
+	}
+	sizes := types.SizesFor("gc", "amd64")
+	wrap := func(v int64, t types.Type) int64 {
+		bt, ok := t.Underlying().(*types.Basic)
+		if !ok || bt.Info()&types.IsInteger == 0 {
+			return v
+		}
+		bits := uint(sizes.Sizeof(bt)) * 8
+		if bits >= 64 {
+			return v
+		}
+		m := int64(1)<<bits - 1
+		v &= m
+		if bt.Info()&types.IsUnsigned == 0 && v>>(bits-1) != 0 {
+			v -= int64(1) << bits
+		}
+		return v
+	}
+	var ev func(v ssa.Value, depth int) (int64, bool)
+	ev = func(v ssa.Value, depth int) (int64, bool) {
+		if depth > 40 {
+			return 0, false
+		}
+		switch x := v.(type) {
+		case *ssa.Parameter:
+			return wrap(arg, x.Type()), true
+		case *ssa.Const:
+			k, ok := constOf(x)
+			return k, ok
+		case *ssa.Convert:
+			a, ok := ev(x.X, depth+1)
+			return wrap(a, x.Type()), ok
+		case *ssa.ChangeType:
+			return ev(x.X, depth+1)
+		case *ssa.BinOp:
+			a, ok1 := ev(x.X, depth+1)
+			b, ok2 := ev(x.Y, depth+1)
+			if !ok1 || !ok2 {
+				return 0, false
+			}
+			var r int64
+			switch x.Op {
+			case token.ADD:
+				r = a + b
+			case token.SUB:
+				r = a - b
+			case token.MUL:
+				r = a * b
+			case token.QUO:
+				if b == 0 {
+					return 0, false
+				}
+				r = a / b
+			case token.REM:
+				if b == 0 {
+					return 0, false
+				}
+				r = a % b
+			case token.SHL:
+				if b < 0 || b > 62 {
+					return 0, false
+				}
+				r = a << uint(b)
+			case token.SHR:
+				if b < 0 || b > 62 {
+					return 0, false
+				}
+				r = a >> uint(b)
+			case token.AND:
+				r = a & b
+			case token.OR:
+				r = a | b
+			case token.XOR:
+				r = a ^ b
+			default:
+				return 0, false
+			}
+			return wrap(r, x.Type()), true
+		}
+		return 0, false
+	}
+	return ev(ret.Results[0], 0)
+}
+
+// c07Rows: the PV buffer is triangular: the line stored for ply p can hold MaxPlies-p moves, so the row
+// starts bufIx(p) must leave that much room before the next row, stay inside the buffer and start at 0.
+func c07Rows(c *Ctx, p *Prog) {
+	const rule = "C07.R2"
+	fn := p.Func("search.bufIx")
+	mp, ok := p.pkgConstInt("chess.MaxPlies")
+	if fn == nil || !ok {
+		c.Anchor(rule, "search.bufIx / chess.MaxPlies")
+		return
+	}
+	// length of pv.moves
+	movesLen := int64(-1)
+	if pk := p.Pkg("search"); pk != nil {
+		if tn, ok := pk.Types.Scope().Lookup("pv").(*types.TypeName); ok {
+			if st, ok := tn.Type().Underlying().(*types.Struct); ok {
+				for i := 0; i < st.NumFields(); i++ {
+					if at, ok := st.Field(i).Type().Underlying().(*types.Array); ok && st.Field(i).Name() == "moves" {
+						movesLen = at.Len()
+					}
+				}
+			}
+		}
+	}
+	starts := make([]int64, mp)
+	for q := int64(0); q < mp; q++ {
+		v, ok := evalArith(fn, q)
+		if !ok {
+			c.Undec(rule, "bufIx#rows-disjoint", fn.Pos(), "bufIx is not a branch-free arithmetic function of the ply: the row layout is not tabulated")
+			return
+		}
+		starts[q] = v
+	}
+	bad := ""
+	if starts[0] != 0 {
+		bad = fmt.Sprintf("row 0 starts at %d", starts[0])
+	}
+	for q := int64(0); q+1 < mp && bad == ""; q++ {
+		if starts[q+1] < starts[q]+(mp-q) {
+			bad = fmt.Sprintf("row %d starts at %d and can hold %d moves, but row %d already starts at %d: a long line at ply %d overwrites the line of ply %d (the tail insert copies from)", q, starts[q], mp-q, q+1, starts[q+1], q, q+1)
+		}
+	}
+	if bad == "" && movesLen >= 0 && starts[mp-1]+1 > movesLen {
+		bad = fmt.Sprintf("the last row starts at %d, beyond the %d-entry buffer", starts[mp-1], movesLen)
+	}
+	if bad == "" {
+		c.Ok(rule, "bufIx#rows-disjoint", fn.Pos(), "tabulated for ply 0..%d: row p starts at bufIx(p) and has room for MaxPlies-p moves before row p+1; all rows lie inside the buffer", mp-1)
+	} else {
+		c.Fail(rule, "bufIx#rows-disjoint", fn.Pos(), "%s", bad)
+	}
 }
